@@ -317,7 +317,8 @@ class TsGraphEdgeMixin:
     _adj: _CachedPropertyResetterAdj
     edges: Iterator
 
-    def add_edge(self, u_of_edge: TsNode, v_of_edge: TsNode, **attr):
+    def _check_ts_edge(self, u_of_edge: TsNode, v_of_edge: TsNode):
+        """Check that an edge may be added, without modifying the graph."""
         self._check_ts_node(u_of_edge)
         self._check_ts_node(v_of_edge)
         _, u_lag = u_of_edge
@@ -329,6 +330,17 @@ class TsGraphEdgeMixin:
             raise RuntimeError(
                 f'The lag of the "to node" {v_lag} should be greater than "from node" {u_lag}'
             )
+
+        # homologous edges are added starting from the "to node", which therefore
+        # must not be the earlier one
+        if self.stationary and v_lag < u_lag:
+            raise ValueError(
+                f'In a stationary graph, the "from node" {u_of_edge} should not be later '
+                f'than the "to node" {v_of_edge}.'
+            )
+
+    def add_edge(self, u_of_edge: TsNode, v_of_edge: TsNode, **attr):
+        self._check_ts_edge(u_of_edge, v_of_edge)
         self.add_node(u_of_edge)
         self.add_node(v_of_edge)
 
@@ -447,6 +459,13 @@ class TsGraphEdgeMixin:
                 from_t += 1
 
     def add_edges_from(self, ebunch, **attr):
+        ebunch = list(ebunch)
+        # check every edge before adding the first one: a bad edge leaves the graph unchanged
+        for e in ebunch:
+            if len(e) not in (2, 3):
+                raise NetworkXError(f"Edge tuple {e} must be a 2-tuple or 3-tuple.")
+            self._check_ts_edge(e[0], e[1])
+
         for e in ebunch:
             ne = len(e)
             if ne == 3:
@@ -470,6 +489,12 @@ class TsGraphEdgeMixin:
             super().remove_edge(u_of_edge, v_of_edge)  # type: ignore
 
     def remove_edges_from(self, ebunch):
+        ebunch = list(ebunch)
+        if self.stationary:
+            # check every edge before removing the first one: a bad edge leaves the graph unchanged
+            for edge in ebunch:
+                self._check_ts_node(edge[0])
+                self._check_ts_node(edge[1])
         for edge in ebunch:
             self.remove_edge(*edge)
 
